@@ -24,13 +24,33 @@ def parseState (s : String) : Option (Option PState) :=
   if s == "." then some none else (parseHex s).map some
 
 /-- `<rows>:<state>:<faults>`; returns the row count, the state and the fault letters. -/
+def parsePage3 (n st f : String) : Option (Nat × Option PState × List Char) :=
+  match n.toNat?, parseState st with
+  | some n, some st => some (n, st, if f == "-" then [] else f.toList)
+  | _, _ => none
+
 def parsePage (w : String) : Option (Nat × Option PState × List Char) :=
   match w.splitOn ":" with
-  | [n, st, f] =>
-    match n.toNat?, parseState st with
-    | some n, some st => some (n, st, if f == "-" then [] else f.toList)
-    | _, _ => none
+  | [n, st, f] => parsePage3 n st f
+  | [n, st, f, "m"] => parsePage3 n st f
   | _ => none
+
+/-- does the page token announce a metadata change (`:m`)? -/
+def pageChanges (w : String) : Bool :=
+  match w.splitOn ":" with
+  | [_, _, _, "m"] => true
+  | _ => false
+
+/-- run-length encoding `<v>x<n>,...` of the column shape (version mod 2) of the first `m` rows -/
+def rle : List Nat → List (Nat × Nat)
+  | [] => []
+  | v :: t =>
+    match rle t with
+    | (w, n) :: r => if v == w then (w, n + 1) :: r else (v, 1) :: (w, n) :: r
+    | [] => [(v, 1)]
+
+def showVer (vs : List Nat) : String :=
+  if vs.isEmpty then "-" else ",".intercalate ((rle vs).map fun p => s!"{p.1}x{p.2}")
 
 /-- Number the rows consecutively. -/
 def buildPages : Nat → List (Nat × Option PState × List Char) → List Page
@@ -60,6 +80,14 @@ def showFin (s : St) : String :=
 def showSt (s : St) (log : String) : String :=
   s!"rows={natList s.delivered} fin={showFin s} log={log}"
 
+/-- number of rows in a printed line -/
+def lineRows (line : String) : Nat :=
+  match (words line).find? (·.startsWith "rows=") with
+  | some w =>
+    let body := (w.drop 5).toString
+    if body == "-" then 0 else (body.splitOn ",").length
+  | none => 0
+
 def isPrefixStr (a b : List String) : Bool := a.isPrefixOf b
 
 def logWords (s : St) : List String := s.log.map fun e => showState e.2
@@ -79,11 +107,13 @@ def implRows (impl : String) : Option Nat :=
     if body == "-" then some 0 else some (body.splitOn ",").length
   | none => none
 
-def run (case impl : String) : String :=
+def runCore (case impl : String) : String :=
   match words case with
   | kind :: skip :: cons :: pageWords =>
     if kind != "pg" && kind != "sess" && kind != "sessdg" then "bad-case" else
-    if skip != "0" && skip != "1" then "bad-case" else
+    if skip != "0" && skip != "1" && skip != "2" && skip != "3" then "bad-case" else
+    let ext := skip == "2" || skip == "3"
+    if !ext && pageWords.any pageChanges then "bad-case" else
     match pageWords.mapM parsePage with
     | none => "bad-case"
     | some ps =>
@@ -135,5 +165,21 @@ def run (case impl : String) : String :=
               else s!"REJECT log not between {showLog lo} and {showLog hi}"
       else "bad-case"
   | _ => "bad-case"
+
+/-- With the metadata-id extension (`skip` 2|3) the line also says which columns each delivered row was
+decoded with: `ver=` run-length encodes (version mod 2) of the first `m` entries of `rowVersions`. -/
+def run (case impl : String) : String :=
+  let core := runCore case impl
+  match words case with
+  | _ :: skip :: _ :: pageWords =>
+    if (skip == "2" || skip == "3") && core.startsWith "rows=" then
+      match pageWords.mapM parsePage with
+      | some ps =>
+        let pagesM : List PageM := (buildPages 0 ps).zip (pageWords.map pageChanges)
+        let vs := ((rowVersions 0 pagesM).take (lineRows core)).map (· % 2)
+        core ++ " ver=" ++ showVer vs
+      | none => core
+    else core
+  | _ => core
 
 end ScyllaVerif.Drive.C07
